@@ -191,3 +191,231 @@ Proof.
       + split; [apply tk_ok_rest; exact Ht|]. destruct Ht as [_ [_ [Hi _]]]. exact Hi. }
   eapply Forall_impl; [|exact Hfin]. intros t [Ht Hi]. destruct t. tk_field_tac; lra.
 Qed.
+
+(* ---- slices *)
+Lemma Forall_firstn_sub {A} (P : A -> Prop) n l : Forall P l -> Forall P (firstn n l).
+Proof. intro Hl. apply Forall_forall. intros x Hx. rewrite Forall_forall in Hl. apply Hl. eapply In_firstn_sub; eauto. Qed.
+Lemma Forall_skipn_sub {A} (P : A -> Prop) n l : Forall P l -> Forall P (skipn n l).
+Proof. intro Hl. apply Forall_forall. intros x Hx. rewrite Forall_forall in Hl. apply Hl. eapply In_skipn_sub; eauto. Qed.
+
+Lemma slice_ok (it : item XQ) ts : Forall tk_ok ts -> Forall tk_ok (item_slice it ts).
+Proof. intro Hts. unfold item_slice, slice. apply Forall_firstn_sub, Forall_skipn_sub, Hts. Qed.
+
+Lemma on_slice_ok (it : item XQ) (f g : list (track XQ) -> list (track XQ)) ts : Forall tk_ok ts ->
+  (forall sl, Forall tk_ok sl -> g sl = f sl /\ Forall tk_ok (f sl)) ->
+  on_slice it g ts = on_slice it f ts /\ Forall tk_ok (on_slice it f ts).
+Proof.
+  intros Hts Hf. unfold on_slice. destruct (Hf _ (slice_ok it ts Hts)) as [E Hk]. rewrite E. split; [reflexivity|].
+  apply Forall_app; split; [apply Forall_firstn_sub; exact Hts|].
+  apply Forall_app; split; [exact Hk|apply Forall_skipn_sub; exact Hts].
+Qed.
+
+Lemma fold_inv {I} (Q : I -> Prop) (f g : list (track XQ) -> I -> list (track XQ)) :
+  (forall ts it, Forall tk_ok ts -> Q it -> g ts it = f ts it /\ Forall tk_ok (f ts it)) ->
+  forall batch ts, Forall Q batch -> Forall tk_ok ts ->
+    fold_left g batch ts = fold_left f batch ts /\ Forall tk_ok (fold_left f batch ts).
+Proof.
+  intros Hs. induction batch as [|it r IH]; intros ts Hb Hts; simpl; [auto|].
+  inversion Hb; subst. destruct (Hs ts it Hts) as [E K]; [assumption|]. rewrite E. apply IH; assumption.
+Qed.
+
+Ltac tk_crush :=
+  unfold tk_ok, fin_or_pinf in *; simpl in *;
+  repeat match goal with H : _ /\ _ |- _ => destruct H end;
+  repeat match goal with
+         | H : finite ?x |- _ => is_var x; destruct x; simpl in H; try contradiction; clear H
+         | H : finite ?x \/ ?x = PInf |- _ => destruct H
+         | H : ?x = PInf |- _ => is_var x; subst x
+         end; simpl in *;
+  repeat match goal with |- context [if ?c then _ else _] => destruct c; simpl end;
+  repeat split; auto; try lra; try (left; exact I); try (right; reflexivity).
+
+Lemma flush_planned_base_ok ts : Forall tk_ok ts -> Forall tk_ok (flush_planned_base ts).
+Proof. intro Hts. apply Forall_map. eapply Forall_impl; [|exact Hts]. intros t Ht. destruct t. tk_crush. Qed.
+Lemma flush_planned_limit_ok b ts : Forall tk_ok ts -> Forall tk_ok (flush_planned_growth_limit_increases b ts).
+Proof. intro Hts. apply Forall_map. eapply Forall_impl; [|exact Hts]. intros t Ht. destruct t. tk_crush. Qed.
+Lemma fix_growth_limits_ok ts : Forall tk_ok ts -> Forall tk_ok (fix_growth_limits ts).
+Proof. intro Hts. apply Forall_map. eapply Forall_impl; [|exact Hts]. intros t Ht. destruct t. tk_crush. Qed.
+
+Section Steps.
+  Variable contrib : item XQ -> ckind -> XQ.
+  Variable inner : option XQ.
+  Variable avail : avail_space XQ.
+  Variables e1 e2 e3 : nat.
+  Hypothesis Hin : inner_ok inner.
+
+  Notation iok := (item_ok contrib).
+
+  Lemma contrib_fin it : iok it ->
+    finite (min_content_contribution contrib it) /\ finite (max_content_contribution contrib it) /\ finite (minimum_contribution_of contrib it).
+  Proof.
+    intros [Hm Hc]. unfold min_content_contribution, max_content_contribution, minimum_contribution_of. xq0.
+    pose proof (Hc KMinContent). pose proof (Hc KMaxContent). pose proof (Hc KMinimum).
+    destruct (it_margin it), (contrib it KMinContent), (contrib it KMaxContent), (contrib it KMinimum); simpl in *; try contradiction; auto.
+  Qed.
+
+  Definition ofin (o : option XQ) : Prop := match o with Some v => finite v | None => True end.
+
+  Lemma deflim_fin t : tk_ok t -> ofin (definite_limit inner (maxf t)).
+  Proof.
+    intros [_ [_ [_ [_ [_ [_ [_ Hm]]]]]]]. destruct (maxf t); simpl in *; auto; destruct inner as [s|]; simpl in *; auto;
+      destruct v, s; simpl in *; try contradiction; exact I.
+  Qed.
+
+  Lemma spanned_fin it ts : Forall tk_ok ts -> ofin (spanned_track_limit inner it ts).
+  Proof.
+    intro Hts. unfold spanned_track_limit. destruct (forallb _ _); [|exact I].
+    match goal with |- ofin (Some (fsum ?l)) => destruct (fsum_fin l) as [s [Es _]] end.
+    { apply Forall_map. eapply Forall_impl; [|apply slice_ok; exact Hts]. intros t Ht. pose proof (deflim_fin t Ht) as Hd.
+      destruct (definite_limit inner (maxf t)); [exact Hd|exact I]. }
+    rewrite Es. exact I.
+  Qed.
+
+  Lemma maybe_min_fin x o : finite x -> ofin o -> finite (maybe_min x o).
+  Proof.
+    intros Hx Ho. destruct o as [v|]; simpl in *; [|exact Hx]. destruct x, v; simpl in *; try contradiction.
+    unfold x_min; simpl. destruct (negb _); exact I.
+  Qed.
+
+  Lemma x_max_finite a b : finite a -> finite b -> finite (x_max a b).
+  Proof. intros Ha Hb. destruct a, b; simpl in *; try contradiction. unfold x_max; simpl. destruct (negb _); exact I. Qed.
+
+  Lemma ims_fin it o : iok it -> ofin o -> finite (intrinsic_minimum_space contrib avail it o).
+  Proof.
+    intros Hit Ho. destruct (contrib_fin it Hit) as [C1 [C2 C3]]. unfold intrinsic_minimum_space.
+    destruct avail; try exact C3; (destruct (negb (it_scroll it)); [|exact C3]); xq0;
+      (apply x_max_finite; [apply maybe_min_fin; assumption|exact C3]).
+  Qed.
+
+  Section B.
+    Variables is_flex uff : bool.
+
+    Lemma to_base_ok it space aff lim ct ts : finite space -> inc_inv aff -> inc_inv lim ->
+      (forall t, tk_ok t -> fin_or_pinf (lim t)) -> Forall tk_ok ts ->
+      to_base_f e1 e2 is_flex uff it space aff lim ct ts = to_base is_flex uff it space aff lim ct ts /\
+      Forall tk_ok (to_base is_flex uff it space aff lim ct ts).
+    Proof.
+      intros Hs Haff Hlim Hl Hts. destruct (fin_inv _ Hs) as [sp ->]. unfold to_base_f, to_base.
+      destruct (ltb zero (Fin sp)); [|split; [reflexivity|exact Hts]].
+      apply on_slice_ok; [exact Hts|]. intros sl Hsl.
+      destruct (base_size_ok is_flex uff sp sl aff lim ct Haff Hlim Hl Hsl) as [E K]. split; [apply E|exact K].
+    Qed.
+
+    Lemma to_limit_ok it space aff ts : finite space -> inc_inv aff -> Forall tk_ok ts ->
+      to_limit_f inner e3 it space aff ts = to_limit inner it space aff ts /\ Forall tk_ok (to_limit inner it space aff ts).
+    Proof.
+      intros Hs Haff Hts. destruct (fin_inv _ Hs) as [sp ->]. unfold to_limit_f, to_limit.
+      destruct (ltb zero (Fin sp)); [|split; [reflexivity|exact Hts]].
+      apply on_slice_ok; [exact Hts|]. intros sl Hsl.
+      destruct (growth_limit_ok inner sp sl aff Hin Haff Hsl) as [E K]. split; [apply E|exact K].
+    Qed.
+
+    Lemma ii (f : track XQ -> bool) : (forall t v, f (set_incurred t v) = f t) -> inc_inv f.
+    Proof. intro Hf. exact Hf. Qed.
+
+    (* the phases: each is the model's phase, whatever the extra fuel, and keeps the class *)
+    Lemma step_minimums_ok batch ts : Forall iok batch -> Forall tk_ok ts ->
+      step_minimums_f contrib inner avail e1 e2 is_flex uff batch ts = step_minimums contrib inner avail is_flex uff batch ts /\
+      Forall tk_ok (step_minimums contrib inner avail is_flex uff batch ts).
+    Proof.
+      intros Hb Hts. unfold step_minimums_f, step_minimums.
+      match goal with |- flush_planned_base (fold_left ?g _ _) = flush_planned_base (fold_left ?f _ _) /\ _ =>
+        destruct (fold_inv iok f g) with (batch := batch) (ts := ts) as [E K]; auto end.
+      2: { rewrite E. split; [reflexivity|apply flush_planned_base_ok; exact K]. }
+      intros ts0 it Hts0 Hit. cbv beta. destruct (it_crosses_intrinsic it); [|split; [reflexivity|exact Hts0]].
+      apply to_base_ok; auto.
+      - apply ims_fin; [exact Hit|apply spanned_fin; exact Hts0].
+      - intros t v. reflexivity.
+      - intros t v. unfold scroll_limit. destruct (it_scroll it); reflexivity.
+      - intros t Ht. apply scroll_fp; assumption.
+    Qed.
+
+    Lemma step_content_minimums_ok batch ts : Forall iok batch -> Forall tk_ok ts ->
+      step_content_minimums_f contrib inner e1 e2 is_flex uff batch ts = step_content_minimums contrib inner is_flex uff batch ts /\
+      Forall tk_ok (step_content_minimums contrib inner is_flex uff batch ts).
+    Proof.
+      intros Hb Hts. unfold step_content_minimums_f, step_content_minimums.
+      match goal with |- flush_planned_base (fold_left ?g _ _) = flush_planned_base (fold_left ?f _ _) /\ _ =>
+        destruct (fold_inv iok f g) with (batch := batch) (ts := ts) as [E K]; auto end.
+      2: { rewrite E. split; [reflexivity|apply flush_planned_base_ok; exact K]. }
+      intros ts0 it Hts0 Hit. cbv beta.
+      apply to_base_ok; auto.
+      - apply (contrib_fin it Hit).
+      - intros t v. reflexivity.
+      - intros t v. unfold scroll_limit. destruct (it_scroll it); reflexivity.
+      - intros t Ht. apply scroll_fp; assumption.
+    Qed.
+
+    Lemma step_max_content_minimums_ok batch ts : Forall iok batch -> Forall tk_ok ts ->
+      step_max_content_minimums_f contrib inner avail e1 e2 is_flex uff batch ts = step_max_content_minimums contrib inner avail is_flex uff batch ts /\
+      Forall tk_ok (step_max_content_minimums contrib inner avail is_flex uff batch ts).
+    Proof.
+      intros Hb Hts. unfold step_max_content_minimums_f, step_max_content_minimums.
+      destruct avail; try (split; [reflexivity|exact Hts]).
+      match goal with |- flush_planned_base (fold_left ?g _ _) = flush_planned_base (fold_left ?f _ _) /\ _ =>
+        destruct (fold_inv iok f g) with (batch := batch) (ts := ts) as [E K]; auto end.
+      2: { rewrite E. split; [reflexivity|apply flush_planned_base_ok; exact K]. }
+      intros ts0 it Hts0 Hit. cbv beta zeta.
+      assert (Hsp : finite (maybe_min (max_content_contribution contrib it) (spanned_track_limit inner it ts0))).
+      { apply maybe_min_fin; [apply (contrib_fin it Hit)|apply spanned_fin; exact Hts0]. }
+      destruct (existsb _ _); apply to_base_ok; auto; try (intros t v; reflexivity).
+      - intros t Ht. right. reflexivity.
+      - intros t Ht. apply fclgl_fp; assumption.
+    Qed.
+
+    Lemma step_max_content_all_ok batch ts : Forall iok batch -> Forall tk_ok ts ->
+      step_max_content_all_f contrib e1 e2 is_flex uff batch ts = step_max_content_all contrib is_flex uff batch ts /\
+      Forall tk_ok (step_max_content_all contrib is_flex uff batch ts).
+    Proof.
+      intros Hb Hts. unfold step_max_content_all_f, step_max_content_all.
+      match goal with |- flush_planned_base (fold_left ?g _ _) = flush_planned_base (fold_left ?f _ _) /\ _ =>
+        destruct (fold_inv iok f g) with (batch := batch) (ts := ts) as [E K]; auto end.
+      2: { rewrite E. split; [reflexivity|apply flush_planned_base_ok; exact K]. }
+      intros ts0 it Hts0 Hit. cbv beta.
+      apply to_base_ok; auto; try (intros t v; reflexivity).
+      - apply (contrib_fin it Hit).
+      - intros t Ht. apply gl_fp; exact Ht.
+    Qed.
+
+    Lemma step_intrinsic_maximums_ok batch ts : Forall iok batch -> Forall tk_ok ts ->
+      step_intrinsic_maximums_f contrib inner e3 batch ts = step_intrinsic_maximums contrib inner batch ts /\
+      Forall tk_ok (step_intrinsic_maximums contrib inner batch ts).
+    Proof.
+      intros Hb Hts. unfold step_intrinsic_maximums_f, step_intrinsic_maximums.
+      match goal with |- flush_planned_growth_limit_increases _ (fold_left ?g _ _) = flush_planned_growth_limit_increases _ (fold_left ?f _ _) /\ _ =>
+        destruct (fold_inv iok f g) with (batch := batch) (ts := ts) as [E K]; auto end.
+      2: { rewrite E. split; [reflexivity|apply flush_planned_limit_ok; exact K]. }
+      intros ts0 it Hts0 Hit. cbv beta.
+      apply to_limit_ok; auto; try (intros t v; reflexivity). apply (contrib_fin it Hit).
+    Qed.
+
+    Lemma step_max_content_maximums_ok batch ts : Forall iok batch -> Forall tk_ok ts ->
+      step_max_content_maximums_f contrib inner e3 batch ts = step_max_content_maximums contrib inner batch ts /\
+      Forall tk_ok (step_max_content_maximums contrib inner batch ts).
+    Proof.
+      intros Hb Hts. unfold step_max_content_maximums_f, step_max_content_maximums.
+      match goal with |- flush_planned_growth_limit_increases _ (fold_left ?g _ _) = flush_planned_growth_limit_increases _ (fold_left ?f _ _) /\ _ =>
+        destruct (fold_inv iok f g) with (batch := batch) (ts := ts) as [E K]; auto end.
+      2: { rewrite E. split; [reflexivity|apply flush_planned_limit_ok; exact K]. }
+      intros ts0 it Hts0 Hit. cbv beta.
+      apply to_limit_ok; auto; try (intros t v; reflexivity). apply (contrib_fin it Hit).
+    Qed.
+
+    (* a whole batch that is not the span-1 fast path: flexible (is_flex = true) or not *)
+    Theorem general_batch_ok batch ts : Forall iok batch -> Forall tk_ok ts ->
+      general_batch_f contrib inner avail e1 e2 e3 is_flex uff batch ts = general_batch contrib inner avail is_flex uff batch ts /\
+      Forall tk_ok (general_batch contrib inner avail is_flex uff batch ts).
+    Proof.
+      intros Hb Hts. unfold general_batch_f, general_batch. cbv zeta.
+      destruct (step_minimums_ok batch ts Hb Hts) as [E1 K1]. rewrite E1.
+      destruct (step_content_minimums_ok batch _ Hb K1) as [E2 K2]. rewrite E2.
+      destruct (step_max_content_minimums_ok batch _ Hb K2) as [E3 K3]. rewrite E3.
+      destruct (step_max_content_all_ok batch _ Hb K3) as [E4 K4]. rewrite E4.
+      pose proof (fix_growth_limits_ok _ K4) as K5.
+      destruct is_flex; [split; [reflexivity|exact K5]|].
+      destruct (step_intrinsic_maximums_ok batch _ Hb K5) as [E6 K6]. rewrite E6.
+      destruct (step_max_content_maximums_ok batch _ Hb K6) as [E7 K7]. rewrite E7.
+      split; [reflexivity|exact K7].
+    Qed.
+  End B.
+End Steps.
